@@ -27,6 +27,8 @@ class Mon(Monitor):
                 continue
             c = w.conns[r.conn]
             n = sum(1 for ci, p, o in wr if ci == c.idx and p['type'] == 'CONNECT')
+            if r.args.get('ka', 0) > 65535:
+                continue        # invalid argument: refusing it is right (C20)
             if r.call_phase == 'new' and c.close_req is None or (c.close_req is not None and c.close_step == w.step and r.call_phase == 'new'):
                 if r.ret != 'deferred' or (r.failed and r.fires[0][0] == w.step):
                     out.append(V('connect', 'valid-connect-refused/%s' % (r.exc or (r.fires and r.fires[0][2])), 'connect() on a fresh protocol refused'))
@@ -37,8 +39,8 @@ class Mon(Monitor):
         # firings of connect Deferreds
         for (r, how, val, isr) in fires(w, ('connect',)):
             c = w.conns[r.conn]
-            if r.fires[0][0] == r.call_step and how == 'err' and r.call_phase != 'new':
-                continue     # refused connect() on a protocol that is not fresh: C14's business
+            if r.fires[0][0] == r.call_step and how == 'err' and (r.call_phase != 'new' or r.args.get('ka', 0) > 65535):
+                continue     # refused connect() on a protocol that is not fresh (C14) or with an invalid argument (C20)
             if len(r.fires) > 1:
                 out.append(V('fire', 'connect-deferred-fired-twice/%s-then-%s' % (r.fires[0][1], r.fires[-1][1]),
                              'connect Deferred fired %d times: %r' % (len(r.fires), r.fires)))
@@ -189,7 +191,11 @@ def scenarios(ctx):
                        connects=[(True, 0, 4), (False, 3, 3)], reconnects=[(True, 3, 4)], badconnacks=(5, 6),
                        pub_qos=(1,), lose_kinds=('done', 'lost'), drain_max_ticks=12, drain_horizon=40.0,
                        budgets=dict(connect=2, connack=2, badconnack=1, dupconnack=1, tick=2 if q else 3, lose=1 if q else 2,
-                                    rebuild=1, pub=1, reconn2=1, disconnect=1)))
+                                    rebuild=1, pub=1, reconn2=1, disconnect=1, badconnect=1)))
+    out.append(Std('two-addresses', profile='pubsub', mode='async', naddr=2, connects=[(True, 0, 4), (False, 2, 4)],
+                   reconnects=[(True, 0, 4)], pub_qos=(1,), lose_kinds=('done',), drain_max_ticks=12, drain_horizon=40.0,
+                   budgets=dict(tick=2),
+                   addr_budgets=[dict(connect=1, connack=1, lose=1, tick=2, pub=1), dict(connect=1, connack=1, lose=1, tick=2, rebuild=1)]))
     return out
 
 
